@@ -197,7 +197,55 @@ def rule_store_flow(ctx, repo):
     ctx.check(ok, "C15.flow", "DAE.write_npz/append", "incremental write appends rows from idx_ptr on", "incremental write no longer appends exactly the new rows", w.W())
 
 
+def rule_replay(ctx, repo):
+    """csv replay: the row pointer and the clock advance together.  calc_h (csv mode) moves k_csv to the next row and sets
+    h = time(row) - t, so `data_csv[k_csv, 0] == dae.t` -- the invariant under which _csv_data_to_dae loads the row OF the current
+    time -- is restored only by `dae.t += self.h`.  Every call of calc_h is therefore followed, on every path to the function's
+    exit, by the clock advance (or by an explicit re-synchronisation of k_csv)."""
+    ch = F.method(repo, "TDS", "calc_h", TDS)
+    adv = [n for n in walk_noscope(ch.fn) if isinstance(n, ast.AugAssign) and dotted(n.target) == "self.k_csv"]
+    hdef = [n for n in walk_noscope(ch.fn) if isinstance(n, ast.Assign) and dotted(n.targets[0]) == "self.h" and "data_csv" in src(n.value)]
+    if not adv:
+        ctx.ok("C15.replay", "TDS.calc_h", "calc_h does not move the csv row pointer", ch.W(), nontrivial=False)
+        return
+    ok = bool(hdef) and Q.match("self.data_csv[self.k_csv, 0] - $s.dae.t", hdef[0].value) is not None
+    ctx.check(ok, "C15.replay", "TDS.calc_h/step", "h = time of the row the pointer moved to - t",
+              "replay step size is not the distance to the row the pointer moved to", ch.W(hdef[0]) if hdef else ch.W())
+    n = 0
+    for mname, fn in repo.cls("TDS", TDS).methods.items():
+        calls = [c for c in calls_in(fn) if dotted(c.func) == "self.calc_h"]
+        if not calls or mname == "calc_h":
+            continue
+        f = F.method(repo, "TDS", mname, TDS)
+        cn = f.calls("self.calc_h", exact=True)
+        tadv = [x for x in f.g.nodes() if f.g.data(x)["kind"] == "stmt" and isinstance(f.g.data(x)["ast"], ast.AugAssign) and
+                (dotted(f.g.data(x)["ast"].target) or "").endswith("dae.t") and isinstance(f.g.data(x)["ast"].op, ast.Add) and
+                src(f.g.data(x)["ast"].value) == "self.h"]
+        resync = [x for x in f.g.nodes() if f.g.data(x)["kind"] == "stmt" and isinstance(f.g.data(x)["ast"], ast.Assign) and
+                  dotted(f.g.data(x)["ast"].targets[0]) == "self.k_csv"]
+        # paths that abort the simulation (busted) are followed by no further replay step
+        abort = [x for x in f.g.nodes() if f.g.data(x)["kind"] == "stmt" and isinstance(f.g.data(x)["ast"], ast.Assign) and
+                 dotted(f.g.data(x)["ast"].targets[0]) == "self.busted" and src(f.g.data(x)["ast"].value) == "True"]
+        # the analysis is of replay mode: branches taken only when no csv is loaded are infeasible
+        infeasible = []
+        for tn in f.g.nodes():
+            if f.g.data(tn)["kind"] == "test" and hasattr(f.g.data(tn)["ast"], "test"):
+                tt = src(f.g.data(tn)["ast"].test)
+                if tt == "self.data_csv is not None":
+                    infeasible += [(tn, m) for m in f.g.succ_label(tn, "false")]
+                elif tt == "self.data_csv is None":
+                    infeasible += [(tn, m) for m in f.g.succ_label(tn, "true")]
+        for c in cn:
+            n += 1
+            ok, p = f.g.must_pass(c, f.g.exit, tadv + resync + abort, infeasible_edges=infeasible)
+            ctx.check(ok, "C15.replay", "TDS.%s/calc_h@%d" % (mname, n), "pointer advance is followed by the clock advance (or a re-sync)",
+                      "calc_h() moves the replay row pointer but `dae.t += self.h` does not follow on the path %s: the next _csv_step loads "
+                      "the row of a LATER time under the current time (first row dropped, second row stored at t0)" % (f.g.fmt_path(p) if p else ""),
+                      f.W(c))
+
+
 def run(ctx):
+    ctx.rule("C15.replay", "csv replay: row pointer and clock advance together at every calc_h call site", 3)
     ctx.rule("C15.order", "channel order t,x,y,z agrees at writer/reader sites (unpack, lst, npz, plot loader, csv replay)", 11)
     ctx.rule("C15.copy", "stored rows are fresh arrays keyed by a float copy of t; channels paired", 4)
     ctx.rule("C15.index", "Output.xidx/yidx produced once (sorted unique) and consumed unchanged by storage, names, address translation", 9)
@@ -208,3 +256,4 @@ def run(ctx):
     rule_copy(ctx, repo)
     rule_index_set(ctx, repo)
     rule_store_flow(ctx, repo)
+    rule_replay(ctx, repo)
